@@ -116,7 +116,15 @@ def run(seed, tier, replay=None):
         rep.count("ties" if len(set(ys)) < N else "distinct")
         # one ndarray object per case, shared by all curve calls in the order a user would make them (naive, u, v, average):
         # a call that modifies its argument in place corrupts the later curves
-        shared = np.array(ns_int)
+        # ... and the integers arrive in a container of any width that holds them (numpy picks the precision / wrap-around of
+        # some operations from the dtype of its input: the curves are functions of the numbers n, not of their container)
+        fits = [dt for dt in C.INT_DTYPES if max(ns_int) <= np.iinfo(dt).max] + ["float32", "float64"]
+        dt = rng.choice(fits) if rng.random() < 0.7 else "int64"
+        if replay is not None and (replay.get("violation", replay).get("input") or {}).get("ns_container") in fits:
+            dt = replay.get("violation", replay)["input"]["ns_container"]
+        rep.count("ns_container=" + dt)
+        inp["ns_container"] = dt
+        shared = np.array(ns_int, dtype=dt)
         for mn in (False, True):
             if ws is None:
                 reqs.append(("emp.naive", f"{dl} {int(mn)} {C.ilist(ns_int)}")); meta.append((ci, "naive", d, mn, ns_int, inp, tol, shared))
